@@ -54,6 +54,8 @@ def gen_cfg(rng, tier: str, big: bool = False) -> dict:
         "hdr_off": rng.choice([512, 512, 1024, 4096, 512 * rng.randint(1, 40)]),
         "bat_gap": rng.choice([0, 0, 512, 512 * rng.randint(0, 30)]),
         "bat_after_data": rng.random() < 0.15,
+        # table_offset is an absolute byte offset: nothing makes it a multiple of the sector size
+        "bat_skew": rng.choice([0, 0, 0, 4, 100, 258]),
         "data_gap": rng.choice([0, 0, 512, 512 * rng.randint(0, 64)]),
         "uid_seed": rng.getrandbits(32),
         "bitmap": rng.choice(["ones", "written"]),
@@ -92,11 +94,11 @@ def render(cfg: dict, layer: Layer, view: View) -> Image:
             data_off = hdr_off + 1024 + cfg["data_gap"]
             if cfg["far"]:
                 data_off += cfg.get("far_off", 1 << 32)
-            bat_off = data_off + nslots * stride + cfg["bat_gap"]
+            bat_off = data_off + nslots * stride + cfg["bat_gap"] + cfg.get("bat_skew", 0)
             end = bat_off + bat_bytes
         else:
-            bat_off = hdr_off + 1024 + cfg["bat_gap"]
-            data_off = bat_off + bat_bytes + cfg["data_gap"]
+            bat_off = hdr_off + 1024 + cfg["bat_gap"] + cfg.get("bat_skew", 0)
+            data_off = align_up(bat_off + bat_bytes + cfg["data_gap"], 512)
             if cfg["far"]:
                 data_off += cfg.get("far_off", 1 << 32)
             end = data_off + nslots * stride
